@@ -489,3 +489,44 @@ func countAt(raw json.RawMessage, pattern string) int {
 	}
 	return walk(v, 0)
 }
+
+// Restarting wraps a driver so that every state also offers "restart-from-genesis": the chain is restarted, in
+// place, from its own exported genesis of the given modules (export -> module validation -> stores emptied ->
+// InitGenesis). The inner driver's reference model is untouched, so all of its oracles keep judging what happens
+// after the restart - a history with a restart in it is still a history. If the module rejects its own export
+// the operation is a no-op (that is C12's finding, not the inner property's).
+type Restarting struct {
+	Driver
+	Modules []string
+}
+
+// WithRestart wraps a driver constructor.
+func WithRestart(mk func() (*Env, Driver), modules ...string) func() (*Env, Driver) {
+	return func() (*Env, Driver) {
+		e, d := mk()
+		return e, &Restarting{Driver: d, Modules: modules}
+	}
+}
+
+type restartOp struct{}
+
+func (r *Restarting) Enabled(e *Env, s *State) []Op {
+	return append(r.Driver.Enabled(e, s), Op{Name: "restart-from-genesis", Data: restartOp{}})
+}
+
+func (r *Restarting) Apply(e *Env, s *State, op Op) []Finding {
+	if _, ok := op.Data.(restartOp); !ok {
+		return r.Driver.Apply(e, s, op)
+	}
+	b, write := s.Ctx.CacheContext()
+	for _, m := range r.Modules {
+		if err := ReimportModule(e, b, m); err != nil {
+			s.Last = "err"
+			return nil
+		}
+	}
+	write()
+	s.MarkDirty()
+	s.Last = "ok"
+	return nil
+}
